@@ -87,6 +87,21 @@ def serLen (j : Json) : Nat := (render j).length
 /-- a state's output, measured the way the engine measures it -/
 def checkStateOutput (data : Json) : Verdict := checkData .stateOutput (serLen data)
 
+/-! #### recorded deviation (open finding C16-F1): one Boolean per known finding, default off -/
+
+structure Quirks where
+  /-- a terminal state (`End: true`, Succeed) hands its output to `end_execution` /
+  `collect_results` without measuring it: only `change_state` (states with `Next`) checks -/
+  terminalOutputUnchecked : Bool := false
+  deriving DecidableEq, Repr
+
+def Quirks.none : Quirks := {}
+
+/-- a state's output of measured length `len`; `terminal` says whether the state ends its
+(branch of the) execution.  With `Quirks.none` the flag is irrelevant. -/
+def checkStateOutputLenQ (q : Quirks) (terminal : Bool) (len : Nat) : Verdict :=
+  if q.terminalOutputUnchecked && terminal then .accepted else checkData .stateOutput len
+
 /-- a text handed to an API site / a reply text -/
 def checkText (site : DataSite) (text : Str) : Verdict := checkData site text.length
 
